@@ -14,7 +14,7 @@ import (
 
 func (fr *Frame) bv(st *State, ref string) string {
 	fr.fc.regVar(hBV, arrSort("Int"))
-	return sSel(fr.fc.get(st, hBV), ref)
+	return fr.fc.rd(st, hBV, ref)
 }
 
 func (fr *Frame) setBV(st *State, ref, val string) {
@@ -31,11 +31,11 @@ func (fr *Frame) pow2(n string) string {
 	key := "pow2:" + n
 	if !fc.declSet[key] {
 		fc.declSet[key] = true
-		fc.addFact("true", sApp(">=", t, "1"))
-		fc.addFact("true", sImp(sEq(n, "0"), sEq(t, "1")))
+		fc.permFact(sApp(">=", t, "1"))
+		fc.permFact(sImp(sEq(n, "0"), sEq(t, "1")))
 		for _, o := range fc.pow2Args {
 			ot := sApp("pow2", o)
-			fc.addFact("true", sAnd(
+			fc.permFact(sAnd(
 				sImp(sApp("<", o, n), sApp("<=", sApp("*", "2", ot), t)),
 				sImp(sApp("<", n, o), sApp("<=", sApp("*", "2", t), ot)),
 				sImp(sEq(sApp("+", o, "1"), n), sEq(sApp("*", "2", ot), t)),
@@ -54,7 +54,7 @@ func (fr *Frame) bitlenOf(x string) string {
 		fc.declSet[key] = true
 		ax := sApp("absI", x)
 		p := fr.pow2(t)
-		fc.addFact("true", sAnd(sApp(">=", t, "0"), sEq(sEq(ax, "0"), sEq(t, "0")),
+		fc.permFact(sAnd(sApp(">=", t, "0"), sEq(sEq(ax, "0"), sEq(t, "0")),
 			sApp("<", ax, p), sImp(sApp(">", ax, "0"), sApp("<=", p, sApp("*", "2", ax)))))
 	}
 	return t
@@ -95,6 +95,16 @@ func (fr *Frame) nativeCall(b *ssa.BasicBlock, st *State, name string, callee *s
 		r := sApp("jacobi", fr.bv(st, x), fr.bv(st, y))
 		fc.addFact("true", sAnd(sApp("<=", "(- 1)", r), sApp("<=", r, "1")))
 		return Val{S: r, Typ: resT}, true
+	case "crypto/sha256.New":
+		fr.trust("crypto/sha256.New/Write/Sum: a fresh hash object; Write appends to its input; Sum(nil) returns sha256 of the input written so far (32 bytes)")
+		r := fr.alloc(st, "hash")
+		fc.regVar("HS", arrSort("Int"))
+		fr.specNative("bempty")
+		fr.wr1(st, "HS", r, "u_bempty")
+		tag := fc.eng.typeTag(types.NewPointer(types.Typ[types.Uint8])) // opaque concrete type
+		id := sApp("mkiface", fmt.Sprint(tag), r)
+		fc.addFact("true", sAnd(sEq(sApp("itype", id), fmt.Sprint(tag)), sEq(sApp("ipay", id), r), sNot(sEq(id, "0"))))
+		return Val{S: id, Typ: resT}, true
 	case "crypto/sha256.Sum256":
 		fr.trust("crypto/sha256.Sum256: returns sha256(content) (uninterpreted, 32 bytes); does not panic")
 		id := fc.freshConst("sum", "Int")
@@ -282,7 +292,7 @@ func (fr *Frame) asn1Marshal(b *ssa.BasicBlock, st *State, args []Val, resT type
 	fc.regVar(hBV, arrSort("Int"))
 	n := sApp("sl_len", s)
 	codes := fc.freshConst("dercodes", arrSort("Int"))
-	row := sSel(fc.get(st, hname), sApp("sl_arr", s))
+	row := fc.rd(st, hname, sApp("sl_arr", s))
 	boolTag := fmt.Sprint(fc.eng.typeTag(types.Typ[types.Bool]))
 	bigTag := fmt.Sprint(fc.eng.typeTag(types.NewPointer(fc.eng.mathBigInt())))
 	el := fmt.Sprintf("(select %s (+ (sl_off %s) i))", row, s)
@@ -570,7 +580,30 @@ func (fr *Frame) nativeInvoke(b *ssa.BasicBlock, st *State, it types.Type, m *ty
 	case "error.Error":
 		fr.trust("error.Error: pure")
 		return fr.havocVal(resT, "errstr"), true
-	case "io.Reader.Read", "hash.Hash.Write", "io.Writer.Write":
+	case "hash.Hash.Write":
+		fr.trust("hash.Hash.Write: appends the bytes to the hash input; never fails")
+		fc.regVar("HS", arrSort("Int"))
+		fr.specNative("bcat")
+		fr.specNative("bempty")
+		h := sApp("ipay", fr.scalar(recv))
+		cur := fc.rd(st, "HS", h)
+		data := fr.bseqOf(st, args[0])
+		fc.addFact("true", sEq(sApp("u_bcat", "u_bempty", data), data))
+		fr.wr1(st, "HS", h, sApp("u_bcat", cur, data))
+		return Val{IsAg: true, Typ: resT, Agg: []Val{{S: sApp("sl_len", fr.scalar(args[0])), Typ: types.Typ[types.Int]}, {S: "0", Typ: resT.(*types.Tuple).At(1).Type()}}}, true
+	case "hash.Hash.Sum":
+		fr.trust("hash.Hash.Sum(nil): fresh 32-byte slice holding sha256 of the input written so far")
+		fc.regVar("HS", arrSort("Int"))
+		h := sApp("ipay", fr.scalar(recv))
+		cur := fc.rd(st, "HS", h)
+		if fr.scalar(args[0]) != "0" {
+			fc.assumptions["hash.Hash.Sum with a non-nil prefix: result content not modelled"] = true
+			return fr.newSliceFresh(st, types.Typ[types.Uint8], fc.freshConst("sumlen", "Int"), resT, "sum"), true
+		}
+		out := fr.newSliceFresh(st, types.Typ[types.Uint8], "32", resT, "sum")
+		fc.addFact("true", sEq(fr.bseqOf(st, out), sApp("sha256", cur)))
+		return out, true
+	case "io.Reader.Read", "io.Writer.Write":
 		fr.trust(full + ": writes at most the given buffer (Read) / nothing visible (Write); returns 0 <= n <= len")
 		if m.Name() == "Read" {
 			fr.havocReach(st, args[0])
@@ -600,7 +633,7 @@ var specNatives = map[string]struct {
 	"bcat": {2, false}, "be64": {1, false}, "le64": {1, false}, "i2osp": {1, false}, "mhsum": {2, false}, "mhcode": {1, false}, "mhok": {1, true}, "mhsupported": {1, true},
 	"asn1ok": {1, true}, "asn1R": {1, false}, "asn1S": {1, false}, "asn1rest": {1, false}, "ecdsaok": {4, true},
 	"cborok": {1, true}, "cbormsg": {1, false}, "cborsig": {1, false}, "cborval": {1, false}, "b64": {1, false}, "unb64": {1, false}, "unb64ok": {1, true},
-	"der": {2, false}, "dercode": {2, false}, "jsonok": {1, true},
+	"der": {2, false}, "dercode": {2, false}, "jsonok": {1, true}, "bempty": {0, false},
 }
 
 func (fr *Frame) specNative(name string) {
